@@ -55,6 +55,7 @@ func cmdRun(args []string) {
 	paramStr := fs.String("param", "", "k=v,k=v vParam values")
 	nomerge := fs.Bool("nomerge", false, "disable if-conversion")
 	knownStr := fs.String("known", "", "comma separated known-finding ids treated as active")
+	race := fs.Bool("race", false, "happens-before data-race detection")
 	fs.Parse(args)
 	t0 := time.Now()
 	ld, err := drive.Load([]string{*pkg}, *arch)
@@ -84,6 +85,9 @@ func cmdRun(args []string) {
 			InitPkg: sp, PathCap: *pathCap, Debug: *debug,
 			Progress: true,
 			Setup: func(it *interp.Interp) { it.InitAllow = drive.DefaultInitAllow; it.Params = params; it.NoMerge = *nomerge
+				if *race {
+					it.RaceOn()
+				}
 				it.Known = map[string]bool{}
 				for _, k := range strings.Split(*knownStr, ",") {
 					if k != "" {
